@@ -666,10 +666,21 @@ def check_programs(ctx, progs, verbose=False, clause_of=None):
     # aborts (the rest of the function, in brush; nothing or the whole call, in bash) is not this property,
     # so those steps are removed (a failed write leaves the model state unchanged) — failing writes stay at top level.
     progs = list(progs)
-    for _round in range(4):
-        flat = [script_of(steps, "S")[1] for _, steps in progs]
-        m1 = lib.run_drv_parallel(["C09 " + " ".join(ops) for ops in flat], workers=8)
-        bads = [failing_in_function(steps, m.split(" | ")) for (_, steps), m in zip(progs, m1)]
+
+    def model_pass(ps):
+        fl = [script_of(steps, "S")[1] for _, steps in ps]
+        ms = lib.run_drv_parallel(["C09 " + " ".join(ops) for ops in fl], workers=8)
+        bs = []
+        for (_, steps), m in zip(ps, ms):
+            d = m.split(" | ")
+            if len(d) != len(step_paths(steps)):
+                bs.append(None)             # a prefix assignment itself failed (the command is skipped): not aligned, dropped
+            else:
+                bs.append(failing_in_function(steps, d))
+        return fl, ms, bs
+
+    for _round in range(6):
+        flat, m1, bads = model_pass(progs)
         if not any(bads):
             break
         newp = []
@@ -681,8 +692,9 @@ def check_programs(ctx, progs, verbose=False, clause_of=None):
                 steps = ns
             newp.append((tag, steps))
         progs = newp
-    keep = [i for i, b in enumerate(bads) if not b]
-    ctx.bucket("prog_dropped_still_failing_in_function", len(progs) - len(keep))
+    flat, m1, bads = model_pass(progs)
+    keep = [i for i, b in enumerate(bads) if b is not None and not b]
+    ctx.bucket("prog_dropped_failing_write_in_function", len(progs) - len(keep))
     progs = [progs[i] for i in keep]
     flat = [flat[i] for i in keep]
     m1 = [m1[i] for i in keep]
